@@ -15,8 +15,10 @@ CORR_VO = 'Corr/C19.vo'
 RULE = ('T2: float() syntax (bytes and str arguments), order of finite decimals, and Headers.elements(name) for Accept, Accept-Charset, Accept-Encoding, '
 	'Accept-Language and TE (value, parameters in dict order and bytes(element) of every element, in the order returned; InvalidHeader; TypeError) evaluated by '
 	'the Gallina model (vm_compute) and by the implementation on the same inputs: lists of 1-8 elements x q in {absent, 0, 1, 0.d-0.ddd, other numerals, malformed} x '
-	'all orderings of small lists, spacing / case variants of the q separator, quoted parameters, accept-ext, and a mutated stream. Oracle: non-increasing finite '
-	'qualities, every listed element exactly once with its parameters, malformed q -> InvalidHeader, order invariance of the multiset and the quality sequence. '
+	'all orderings of small lists, spacing / case variants of the q separator, quoted parameters, empty q texts in every spelling and position, one or more accept-ext '
+	'parameters after q (with and without values, quoted, blanks around them, names that collide), and a mutated stream. Oracle: non-increasing finite '
+	'qualities, every listed element exactly once with its parameters (accept-ext parameters included), malformed or empty q -> InvalidHeader, no exception other than '
+	'InvalidHeader, order invariance of the multiset and the quality sequence. '
 	'non-trivial = distinct (kind, field, value) with a distinct outcome')
 EXHAUSTIVE = {'quick': False, 'thorough': False}
 TRUSTED = ['harness/tables/elemlex.py + harness/tables/accept.py (T1: bytes.strip set, regex classes, pinned patterns, float() octet classes and special words, the five field classes)',
@@ -39,18 +41,22 @@ Q_NUM = ['5', '-1', '1e-3', '1E0', '1_0', '+0.5', '.5', '5.', '00.5', '0.5000000
 Q_BAD = ['x', 'nan', 'inf', '-inf', 'NaN', 'Infinity', '1e', '0.5x', '.', '--1', '1/2', 'one', '0x1', '0..5', '1_', '_1', '1__0', '0.5.', 'e1', '+', '0,5'.replace(',', ''), '\xbd', '0.5\xe4', '1 2', 'q']
 SEPS = [';q=', ';q=', ';q=', '; q=', ' ;q=', ';q =', '; q = ', ';\tq=', ';Q=', '; Q=']
 
-D24 = {'k': 'elems', 'name': 'Accept', 'fv': b'a/a;q=nan, b/b;q=0.5, c/c'.hex()}
-D25A = {'k': 'elems', 'name': 'Accept', 'fv': b'text/html;q=0.5;ext=1'.hex(), 'want': [{'v': 'text/html', 'p': [], 'q': '0.5', 'ext': [['ext', '1']]}]}
-D25B = {'k': 'elems', 'name': 'Accept', 'fv': b'a/b;q=, c/d'.hex(), 'want': [{'v': 'a/b', 'p': [], 'q': ''}, {'v': 'c/d', 'p': [], 'q': None}]}
-WITNESSES = [('D25-accept-ext-rejected', D25A), ('D25-empty-q', D25B)]
+# the failing inputs of the repaired findings D24 and D25 (both parts) are corpus cases: corpus/C19/*.json
+# accept-ext parameters (RFC 7231 5.3.2: *( OWS ";" OWS token [ "=" ( token / quoted-string ) ] ) after the quality value)
+EXT_SETS = [[('ext', '1')], [('token', '')], [('ext', 'a b')], [('ext', 'a;b')], [('ext', 'a,b')], [('e1', 'x'), ('e2', '')], [('ext', '1'), ('tok', ''), ('s', 'a=b')], [('EXT', 'Y')],
+	[('mxb', '100000'), ('mxt', '5.0')], [('a', '1'), ('b', '2'), ('c', '3'), ('d', '')], [('n', '\xe4')], [('ext', '0.9')], [('r', 'q=0.1')]]
+EXT_DUP = [[('q', '1')], [('Q', '0.1')], [('ext', '1'), ('ext', '2')], [('ext', '1'), ('EXT', '2')], [('level', '2')], [('x', '1'), ('q', '')]]
+XSEPS = [';', '; ', ' ; ', ';\t', ' ;']
+XEQS = ['=', '=', ' = ', '= ', ' =']
+EMPTY_SEPS = [';q=', '; q=', ' ;q=', ';q =', '; q = ', ';\tq=', ';q= ', ';q=\t ', ';Q=', '; Q = ', ';Q=""', ';q=""', ';q', ';Q', '; q']
 
 
-def _fmtparam(k, v):
+def _fmtparam(k, v, eq='='):
 	if v == '':
 		return k
 	if re.search(r'[ ()<>@,;:\\"/\[\]?=]', v):
-		return '%s="%s"' % (k, v)
-	return '%s=%s' % (k, v)
+		return '%s%s"%s"' % (k, eq, v)
+	return '%s%s%s' % (k, eq, v)
 
 
 def _render(el, sep):
@@ -60,8 +66,8 @@ def _render(el, sep):
 	if el['q'] is not None:
 		s += sep + el['q']
 	for k, v in el.get('ext', []):
-		s += ';' + _fmtparam(k, v)
-	return s
+		s += el.get('xsep', ';') + _fmtparam(k, v, el.get('xeq', '='))
+	return s + el.get('tail', '')
 
 
 rng_choice_cache = [';']
@@ -127,11 +133,56 @@ def gen_cases(rng, tier):
 		r = rng.random()
 		pool = Q_OK if r < 0.6 else Q_OK + Q_NUM if r < 0.75 else Q_OK * 3 + Q_BAD if r < 0.93 else Q_OK * 3 + ['']
 		els = [_elem(rng, name, pool) for _ in range(n)]
-		if name == 'Accept' and rng.random() < 0.06:
+		if rng.random() < (0.12 if name == 'Accept' else 0.04):
 			e = rng.choice(els)
 			if e['q'] is not None:
-				e['ext'] = [list(rng.choice([('ext', '1'), ('extx', 'y'), ('token', '')]))]
+				e['ext'] = [list(x) for x in rng.choice(EXT_SETS)]
+				e['xsep'], e['xeq'] = rng.choice(XSEPS), rng.choice(XEQS)
 		cases.append({'k': 'elems', 'name': name, 'fv': _field(rng, els).hex(), 'want': els})
+	# the two repaired findings D25, systematically.  (1) an empty quality value: every spelling of the separator x alone / first / last / between
+	# numeric elements / twice / followed by accept-ext parameters
+	for name in NAMES:
+		v1, v2, v3 = VALUES[name][0], VALUES[name][1], VALUES[name][-1]
+		for sep in EMPTY_SEPS:
+			em = lambda **kw: dict({'v': v1, 'p': [], 'q': '', 'sep': sep}, **kw)
+			num = lambda v, q: {'v': v, 'p': [], 'q': q, 'sep': ';q='}
+			shapes = [[em()], [em(), num(v2, None)], [em(), num(v2, '0.5')], [num(v2, '0.5'), em()], [num(v2, '1'), em(), num(v3, '0.3')], [em(), em(v=v2)],
+				[em(p=[['level', '1']]), num(v2, '0')]]
+			if sep.endswith('='):
+				shapes += [[em(ext=[['ext', '1']])], [em(ext=[['ext', '1'], ['tok', '']], xsep='; '), num(v2, '0.5')], [em(tail=';')], [em(tail=' ; ;'), num(v2, '0.2')]]
+			for els in shapes:
+				cases.append({'k': 'elems', 'name': name, 'fv': _field(rng, els).hex(), 'want': els})
+	# (2) accept-ext parameters after the quality value: one or more, with and without values, quoted, blanks around ';' and '=',
+	# after every kind of q text, with and without media-range parameters, alone and next to other elements; colliding names
+	k = 0
+	for name in NAMES:
+		vals = VALUES[name]
+		for exts in EXT_SETS + EXT_DUP:
+			# (an accept-ext parameter spelled "q" after the ";Q=" spelling would itself be the first q separator: such elements keep ";q=")
+			for q in ['0.5', '1', '0', '0.333', '1.000', '5', 'x', '1e', 'nan'] if big or name == 'Accept' else ['0.5', '0', 'x']:
+				k += 1
+				el = {'v': vals[k % len(vals)], 'p': [list(x) for x in rng.sample(PARAMS, k % 3)] if k % 4 == 0 else [], 'q': q, 'sep': SEPS[k % len(SEPS)] if k % 3 == 0 and not any(x[0] == 'q' for x in exts) else ';q=',
+					'ext': [list(x) for x in exts], 'xsep': XSEPS[k % len(XSEPS)], 'xeq': XEQS[(k // 2) % len(XEQS)]}
+				if k % 7 == 0:
+					el['tail'] = rng.choice([';', ' ;', ' '])
+				others = [_elem(rng, name, Q_OK) for _ in range((k % 5) % 3)]
+				els = others[:1] + [el] + others[1:]
+				cases.append({'k': 'elems', 'name': name, 'fv': _field(rng, els).hex(), 'want': els})
+		# every element of the field carries accept-ext parameters; two orderings of the same list
+		for _ in range(12 if big else 3):
+			els = []
+			for i in range(rng.randint(2, 4)):
+				e = _elem(rng, name, ['0.5', '0.5', '1', '0.3', '0', '0.999'])
+				if e['q'] is None:
+					e['q'], e['sep'] = '0.5', ';q='
+				e['ext'] = [list(x) for x in rng.choice(EXT_SETS)]
+				e['xsep'], e['xeq'] = rng.choice(XSEPS), rng.choice(XEQS)
+				els.append(e)
+			fv = _field(rng, els)
+			cases.append({'k': 'elems', 'name': name, 'fv': fv.hex(), 'want': els})
+			els2 = list(els)
+			rng.shuffle(els2)
+			cases.append({'k': 'perm', 'name': name, 'fv': fv.hex(), 'fv2': _field(rng, els2).hex()})
 	# all orderings of small lists (qualities with ties)
 	for _ in range(60 if big else 14):
 		name = rng.choice(NAMES)
@@ -161,7 +212,11 @@ def gen_cases(rng, tier):
 		b'a;x="b,c";q=0.1, d;q=0.2', b'a;x="b,c, d;q=0.2', b' a ; q = 0.5 , b ', b'a;q=0.5,', b';q=0.5', b'a;;q=0.5', b'a;q=0.5;', b'a;q=0.5;;', b'a;q==0.5', b'a;qq=0.5', b'a;q', b'a;q;q=1', b'a; q', b'a;q =',
 		b'a;q=1, b;q=1, c;q=1', b'c;q=1, b;q=1, a;q=1', b'b, a, c', b'a;z=1, a;y=1, a', b'A, a', b'a;q=0.5, b;q=0.50, c;q=5e-1', b'*, */*, *;q=1', b'a;q=0.7, =?utf-8?b?YQ==?=', b'a;x*=utf-8\'\'%41', b'a;x*0=1;x*1=2',
 		b'a;q=\xa00.5', b'a;Q=\xa00.5', b'a;Q="\xa00.5\x85"', b'a;q=0.5\x0b', b'a;\x0bq\x0c=\r0.5', b'a;q=0.5 ;x=1', b'a;q= 0.5 ', b'a;q=1e999', b'a;q=-inf, b', b'a;q=Infinity, b;q=1', b'a;q=nan', b'a;q=+nan, b;q=nan, c;q=0.1, d',
-		b'a;x="=?"', b'a;x="b=?c"', b'a=?b', b'a;x="\\=?"', b'a;x="a=\\?b", a;x="a=\\?c"']
+		b'a;x="=?"', b'a;x="b=?c"', b'a=?b', b'a;x="\\=?"', b'a;x="a=\\?b", a;x="a=\\?c"',
+		b'a;q=;0.5', b'a;q= ; ;0.5', b'a;q=;', b'a;q=;;', b'a;q=;ext', b'a;q=0.5;ext;', b'a;q=0.5;=1', b'a;q=0.5;ext=', b'a;q=0.5;ext=""', b'a;q=0.5;ext="', b'a;q=0.5;ext=(', b'a;q=0.5;ext=a b',
+		b'a;q=0.5;x*=utf-8\'\'%41', b'a;q=0.5;x*0=1;x*1=2', b'a;q=0.5;e==?utf-8?q?x?=', b'a;q=0.5;e="=?"', b'a;q="0.5;e=1";f=2', b'a;q=0.5;e="1, b;q=0.7', b'a;q=0.5;e="1", b;q=0.7;f=2',
+		b'a;q=0.5;e=1;q=0.7', b'a;x=1;q=0.5;X=2', b'a;Q=1;q=0.5;e=1', b'a;q=0.5;Q=1', b'a;q=0.5;e=1, a;q=0.5;e=2, a;q=0.5', b'a;q=0.5;\xe4=1', b'a;q=0.5;e=\xe4', b'a;q=\xa0;e=1', b'a;Q=;e=1',
+		b'*;q=0.5;e=1', b'a;q=,b;q=0.5', b'a;q=, b;q=', b'a;q =\t, b', b'a;Q="", b;q=1', b'a;q, b;q=1', b'a;q="", b']
 	for fv in hand:
 		for name in ('Accept', 'TE'):
 			cases.append({'k': 'elems', 'name': name, 'fv': fv.hex()})
@@ -326,6 +381,38 @@ def _split_top(fv):
 	return out
 
 
+WS = b' \t\n\r\x0b\x0c'
+RFC_Q = re.compile(r'0(\.[0-9]{0,3})?|1(\.0{0,3})?')
+AMBIGUOUS = ('ambiguous',)
+
+
+def _listed_qtexts(c, fv):
+	"""the quality value of every listed element as the property reads it: None (no q parameter) | bytes (the text up to the first ';' after
+	the q separator, trimmed; b'' = an empty quality value) | AMBIGUOUS (no statement).  None when the elements cannot be told apart reliably."""
+	want = c.get('want')
+	if want is not None:
+		return [None if el['q'] is None else el['q'].encode('ISO8859-1').strip(WS) for el in want]
+	if fv.count(b'"') == 0 and fv:
+		out = []
+		for piece in _split_top(fv):
+			parts = QSEP.split(piece, 1)
+			if len(parts) != 2:
+				# a parameter named q/Q that did not come through the separator (";Q=", ";q" without "=") is not interpreted for raw inputs
+				out.append(AMBIGUOUS if re.search(rb';\s*[qQ]\s*(=|;|$)', piece) else None)
+				continue
+			first, semi, rest = parts[1].partition(b';')
+			first = first.strip(WS)
+			# "a;q=;0.5": an empty piece followed by something that is not empty - the library skips empty parameters everywhere; no statement
+			out.append(AMBIGUOUS if first == b'' and rest.replace(b';', b'').strip(WS) else first)
+		return out
+	return None
+
+
+def _names_collide(el):
+	names = [k.lower() for k, _ in el['p']] + (['q'] if el['q'] is not None else []) + [k.lower() for k, _ in el.get('ext', [])]
+	return len(set(names)) != len(names)
+
+
 def _check_result(c, o, name):
 	"""clauses 1-3 on one observed result"""
 	fv = bytes.fromhex(c['fv']) if isinstance(c.get('fv'), str) else c['fv']
@@ -334,36 +421,30 @@ def _check_result(c, o, name):
 		return 'unexpected exception %s' % (o,)
 	if o.get('err') == 'nonlatin1':
 		return None
-	# what q texts are listed?
-	if want is not None:
-		qtexts = [None if el['q'] is None else el['q'].encode('ISO8859-1').strip(b' \t\n\r\x0b\x0c') for el in want]
-		if any(el.get('ext') for el in want):
-			qtexts = [q for q in qtexts]
-	elif fv.count(b'"') == 0 and fv:
-		qtexts = []
-		for piece in _split_top(fv):
-			parts = QSEP.split(piece, 1)
-			qtexts.append(parts[1].partition(b';')[0].strip(b' \t\n\r\x0b\x0c') if len(parts) == 2 else None)
-	else:
-		qtexts = None
 	if o.get('err') == 'typeerror':
-		return 'TypeError escaped from elements(): %s' % o.get('msg')
+		return 'TypeError escaped from Headers.elements() (an exception that is not InvalidHeader): %s; field %r' % (o.get('msg'), fv)
+	qtexts = _listed_qtexts(c, fv)
 	if qtexts is not None:
-		kinds = [None if q is None else _qnum(q) for q in qtexts]
+		kinds = [None if q is None else q if q is AMBIGUOUS else _qnum(q) for q in qtexts]
 		if any(k == ('nan',) for k in kinds):
 			if 'es' in o:
-				return 'malformed-q-accepted: a quality value that is not a number did not make the field invalid (%r)' % ([q for q in qtexts if q is not None and _qnum(q) == ('nan',)][:2],)
+				return 'malformed-q-accepted: a quality value that is not a number did not make the field invalid (%r)' % ([q for q, k in zip(qtexts, kinds) if k == ('nan',)][:2],)
+			return None
+		if any(k == ('empty',) for k in kinds):
+			if 'es' in o:
+				return 'empty-q-accepted: an empty quality value is not a number but did not make the field invalid: %r' % (fv,)
 			return None
 	if 'es' not in o:
-		if want is not None and all(el['q'] is None or (re.fullmatch(r'0(\.[0-9]{0,3})?|1(\.0{0,3})?', el['q']) and not el.get('ext')) for el in want):
-			return 'valid-field-rejected: %r' % (fv,)
-		if want is not None and all(el['q'] is None or re.fullmatch(r'0(\.[0-9]{0,3})?|1(\.0{0,3})?', el['q']) for el in want):
-			return 'accept-ext-rejected: %r' % (fv,)
+		if want is not None and all(el['q'] is None or RFC_Q.fullmatch(el['q']) for el in want) and not any(_names_collide(el) for el in want):
+			if not any(el.get('ext') for el in want):
+				return 'valid-field-rejected: a field of well-formed elements whose quality values are numbers was refused: %r' % (fv,)
+			if name == 'Accept':
+				return 'accept-ext-rejected: accept-ext parameters after a numeric quality value (RFC 7231 5.3.2) made the field invalid: %r' % (fv,)
 		return None
 	es = o['es']
 	qs = [e['q'] for e in es]
 	if any(q is None for q in qs):
-		return 'quality-none: an element was returned with quality None'
+		return 'empty-q-accepted: an empty quality value is not a number but an element was returned with quality None: %r' % (fv,)
 	if any(q in ('nan', 'inf', '-inf') for q in qs):
 		return 'malformed-q-accepted: non-finite quality %r returned' % ([q for q in qs if q in ('nan', 'inf', '-inf')][:2],)
 	fr = [Fraction(q) for q in qs]
@@ -377,7 +458,7 @@ def _check_result(c, o, name):
 				v = '*/*'
 			ps = [(k.lower(), x) for k, x in el['p'] + el.get('ext', [])]
 			q = el['q']
-			qv = Fraction(1) if q is None else _qnum(q.encode('ISO8859-1').strip(b' \t\n\r\x0b\x0c'))
+			qv = Fraction(1) if q is None else _qnum(q.encode('ISO8859-1').strip(WS))
 			exp.append((v, tuple(sorted(ps)), qv if q is None else qv[1] if qv[0] == 'num' else None))
 		got = []
 		for e in es:
@@ -413,28 +494,8 @@ def oracle(c, o):
 	return None
 
 
-def _qtexts_of(fv):
-	out = []
-	for piece in _split_top(fv):
-		parts = QSEP.split(piece, 1)
-		if len(parts) == 2:
-			out.append(parts[1])
-	return out
-
-
-EMPTY_Q = re.compile(rb';\s*[qQ]\s*(=\s*(""\s*)?)?(;|,|$)')
-
-
 def classify(c, o, fail):
-	if c['k'] != 'elems':
-		return None
-	fv = bytes.fromhex(c['fv'])
-	# input class of D25 (second part): some element carries a q parameter with an empty value
-	if fail.startswith(('TypeError escaped', 'quality-none')) and EMPTY_Q.search(fv):
-		return 'D25-empty-q'
-	# input class of D25 (first part): parameters after the q separator
-	if fail.startswith('accept-ext-rejected') and any(b';' in q for q in _qtexts_of(fv)):
-		return 'D25-accept-ext-rejected'
+	"""no known finding is attached to C19 any more (D24 and both parts of D25 are repaired; their inputs are corpus cases)"""
 	return None
 
 
@@ -451,7 +512,8 @@ def nontrivial(c, o):
 LEVEL_TEXT = ('Machine-checked Coq theorems about a Gallina model of Headers.elements for the five negotiation fields (split outside quotes, q separator, parseparams, '
 	'quality/sanitize, compose, __lt__, sorted(reverse=True)), for field values of any length and any float order that is a total preorder: the comparison is a strict weak '
 	'order; the returned qualities are non-increasing; the result is a permutation of the parsed listed elements; the quality sequence and the multiset do not depend '
-	'on the order sent; a field of well-formed elements is read back element by element with its parameters and returned; an element whose non-empty q text float() refuses (or, after the repair of D24, reads as NaN/infinity) makes the field invalid. '
+	'on the order sent; a field of well-formed elements - with or without accept-ext parameters after the quality value - is read back element by element with its parameters and returned; '
+	'an element whose q text float() refuses (the empty text included; NaN/infinity after the repair of D24) makes the field invalid; every returned quality is a number and the TypeError of sorted() cannot arise (repairs of D25). '
 	'The model is tied to /repo on every run (T1 tables, ~9k model-vs-implementation evaluations inside Coq).')
 LEVEL_NOTE = ('Trusted: Coq kernel + vm_compute; T1 tables and the T2 harness; float() value as an abstract total preorder; RFC 2047 words and RFC 2231 names are outside the model '
 	'(the model says so explicitly and the theorems only speak about FOk results). No axioms (Print Assumptions: closed).')
